@@ -124,6 +124,14 @@ func (c *fRegistryImpl) dispatch(opid uint64, frame []byte) error {
 	}
 	c.mu.RUnlock()
 
-	resultC <- frame
+	// Never block the transport's single read loop (or NATS callback) on a
+	// caller: the result channel has room for exactly one response, so a
+	// frame that does not fit is a duplicate or arrives after the caller has
+	// stopped listening and is discarded.
+	select {
+	case resultC <- frame:
+	default:
+		logger().Warnf("frugal: discarding extra response for opid %d", opid)
+	}
 	return nil
 }
